@@ -76,6 +76,10 @@ def tasks(tier, seed):
         hists += ["".join(h) for h in itertools.product(ops, repeat=4)]
     for h in hists:
         out.append({"fn": "history", "kwargs": {"ops": h}, "label": f"history/{h}", "caps": {"max_seconds": 200, "max_paths": 4000}})
+    # pixels that are not square (0.5 x 3.0): array charge and clusters in one frame
+    rect = ["A", "AC", "CA", "ACR", "CAR", "ARC", "ACX", "CAX", "CAE"] if tier == "quick" else [h for h in hists if "A" in h and "C" in h and len(h) <= 3] + ["A", "ACX", "CAX"]
+    for h in rect:
+        out.append({"fn": "history", "kwargs": {"ops": h, "sizes": 1}, "label": f"history/{h}@rect", "caps": {"max_seconds": 200, "max_paths": 4000}})
     out.append({"fn": "centres", "kwargs": {}, "label": "centres/roundtrip"})
     return out
 
@@ -183,7 +187,7 @@ def fidelity_binning(kwargs, w):
 
 # -- histories ---------------------------------------------------------------------------------
 HSHAPE = (1, 2)
-HS = SIZES[0]
+HS = list(SIZES[0])  # pixel (vertical, horizontal) size of the history geometry; set per task through `sizes`
 
 
 def _remove(ch, ids, xp):
@@ -240,7 +244,9 @@ def _run_history(ops, xp, arrs, clus):
     return reads
 
 
-def history(ops):
+def history(ops, sizes=0):
+    HS[:] = SIZES[sizes]
+    sfx = "" if sizes == 0 else f"@pixel={SIZES[sizes][0]}x{SIZES[sizes][1]}"
     arrs = [sym_array(f"a{i}", HSHAPE) for i in range(ops.count("A"))]
     for a in arrs:
         for e in a.elems():
@@ -258,7 +264,7 @@ def history(ops):
             reads = _run_history(ops, symnp, arrs, clus)
         except IndexError:
             oob = True
-    vx.prove(f"C14/mixed/in_bounds_only/{ops}", not oob)
+    vx.prove(f"C14/mixed/in_bounds_only/{ops}{sfx}", not oob)
     if oob:
         return
     # oracle
@@ -293,9 +299,9 @@ def history(ops):
     ok = [len(reads) == len(want)]
     for r, wv in zip(reads, want):
         ok += [r[0, 0] == wv[0], r[0, 1] == wv[1]]
-    vx.prove(f"C14/mixed/{ops}", vx.all_of(ok))
+    vx.prove(f"C14/mixed/{ops}{sfx}", vx.all_of(ok))
     if ops.endswith("E"):
-        vx.prove(f"C14/reset/zero/{ops}", vx.all_of([e == 0 for e in reads[-1].elems()]))
+        vx.prove(f"C14/reset/zero/{ops}{sfx}", vx.all_of([e == 0 for e in reads[-1].elems()]))
     vx.observe("reads", [r.elems() for r in reads])
 
 
@@ -304,6 +310,7 @@ def fidelity_history(kwargs, w):
     if "reads" not in w["observed"]:
         return True, {}
     ops = kwargs["ops"]
+    HS[:] = SIZES[kwargs.get("sizes", 0)]
     arrs = [np.array([float(inp[f"a{i}_{j}"]) for j in range(2)]).reshape(HSHAPE) for i in range(ops.count("A"))]
     clus = [(float(inp[f"n{i}"]), float(inp[f"y{i}"]), float(inp[f"x{i}"])) for i in range(ops.count("C"))]
     exact = all(Fraction(float(v)) == v for v in inp.values())
@@ -368,6 +375,7 @@ def replay(oid, kwargs, model, data):
         return (not np.allclose(arr, want)), {"reported": arr.tolist(), "expected": want.tolist(), "clusters_outside": outside}
     if fn == "history":
         ops = kwargs["ops"]
+        HS[:] = SIZES[kwargs.get("sizes", 0)]
         arrs = [np.array([g(f"a{i}_{j}") for j in range(2)]).reshape(HSHAPE) for i in range(ops.count("A"))]
         clus = [(g(f"n{i}"), g(f"y{i}"), g(f"x{i}")) for i in range(ops.count("C"))]
         acc = np.zeros(HSHAPE)
